@@ -163,6 +163,8 @@ class RefReader:
     def read_snapshot(self, key, data):
         """{'chunks': [digest...], 'data': dict | None, 'chunks_ct', 'data_ct'} ; raises ValueError when the shared part does not open"""
         body = parse_json(data)
+        if sorted(body) != ['chunks', 'data']:
+            raise ValueError(f'snapshot object has fields {sorted(body)}, expected chunks and data')
         if not self.encrypted:
             return {'chunks': body['chunks'], 'data': body['data'], 'chunks_ct': None, 'data_ct': None}
         cct, dct = body['chunks'], body['data']
